@@ -153,3 +153,7 @@ for _f in ("_FileScanHelper__plugins", "_FileScanHelper__tokenizer", "_FileScanH
     PROTECTED_FIELDS[_f] = "stored only in FileScanHelper.__init__ (structural obligation C15::protected[FileScanHelper.*])"
 
 PROTECTED_FIELDS["owning_manager"] = "PluginScanContext.owning_manager: stored only in PluginScanContext.__init__ (structural obligation C07::protected[owning_manager])"
+
+for _f in ("_PyMarkdownLint__plugins", "_PyMarkdownLint__presentation", "_PyMarkdownLint__extensions", "_PyMarkdownLint__properties",
+           "_PyMarkdownLint__string_to_scan"):
+    PROTECTED_FIELDS[_f] = "stored only in PyMarkdownLint.__init__ (structural obligation C18::protected[PyMarkdownLint.*])"
